@@ -277,6 +277,9 @@ def load_known():
     return known
 
 
+VIOLATIONS_REPORTED = 0
+
+
 def report_violation(pid, name, replay_obj, key=None):
     """Write a replay file and print the VIOLATION line (or KNOWN-FINDING if `key` is listed).
     Returns True if it counts as a violation."""
@@ -290,6 +293,8 @@ def report_violation(pid, name, replay_obj, key=None):
     with open(path, "w") as f:
         json.dump(replay_obj, f, indent=1, default=str)
     log("VIOLATION property=%s replay=%s" % (pid, path))
+    global VIOLATIONS_REPORTED
+    VIOLATIONS_REPORTED += 1
     return True
 
 
@@ -327,9 +332,17 @@ def main_wrapper(pid, fn):
     try:
         v = fn(tier, seed)
     except ToolError as e:
+        # a verdict already reached stands: sanity / vacuity guards that trip afterwards (the code under test
+        # behaving differently is exactly why there are violations) do not turn it into a tool error
+        if VIOLATIONS_REPORTED:
+            log("NOTE property=%s after %d violation(s): %s" % (pid, VIOLATIONS_REPORTED, e))
+            sys.exit(1)
         log("TOOL-ERROR property=%s %s" % (pid, e))
         sys.exit(2)
     except subprocess.TimeoutExpired as e:
+        if VIOLATIONS_REPORTED:
+            log("NOTE property=%s after %d violation(s): timeout %s" % (pid, VIOLATIONS_REPORTED, e))
+            sys.exit(1)
         log("TOOL-ERROR property=%s timeout %s" % (pid, e))
         sys.exit(2)
     sys.exit(1 if v else 0)
